@@ -554,3 +554,95 @@ _iov("C20", "A cloned or taken OwningIovec is an independent snapshot",
      "on both sides; per-object shadow oracle checked on every object after every operation.",
      " clone_independent is proved at full strength (incl. backfill) for histories that clone only iovecs with no placeholder pending "
      "(pending_private: no other object's slice covers a pending placeholder range; the premise is shown necessary by a model counter-example).")
+
+SPECS["C14"] = dict(
+    title="VouchedTime exists only inside the allowed window around a vouched base time",
+    lean_modules=["Woodpile.Props.C14"],
+    theorems=[
+        "Woodpile.Props.C14.window_consts",
+        "Woodpile.Props.C14.check_vouch",
+        "Woodpile.Props.C14.check_injective",
+        "Woodpile.Props.C14.voucher_unique",
+        "Woodpile.Props.C14.new_ok_iff",
+        "Woodpile.Props.C14.new_ok_iff_fits",
+        "Woodpile.Props.C14.no_panic",
+        "Woodpile.Props.C14.reports_local_time",
+        "Woodpile.Props.C14.now_same_rule",
+        "Woodpile.Props.C14.wrap_counterexample",
+        "Woodpile.Props.C14.trunc_counterexample",
+    ],
+    families=[dict(name="vtime", quick=3000, thorough=400000)],
+    technique=("Lean 4 proof (integer/UInt64 arithmetic over all local times x 2^64 base times x 2^64 vouchers; ring identities "
+               "of the raffle voucher in Z/2^64 for the extracted parameters) + model/implementation correspondence"),
+    design_ref="DESIGN.md section 5, C14",
+    level_text=("Kernel-checked theorems about a Lean model of raffle's check/vouch (exact wrapping u64 arithmetic) and of "
+                "VouchedTime::check_vouched_time/check/new/check_or_die/get_local_time/now (i128 as Int, div_euclid, the <0 and "
+                ">u64::MAX guards, the signed window): new succeeds iff the voucher checks, the local time is not before the epoch "
+                "and floor(local/1ms) - base is in [-59900, 2990], for every representable local time (and every one whose "
+                "millisecond count fits a u64), all 2^64 base times and all vouchers; no panic site is reachable; a constructed "
+                "value reports its construction time; now() is new() on the clock reading. The voucher check is characterised "
+                "completely (check x v iff v = the crate's own voucher of x) for the parameter strings re-extracted from /repo on "
+                "every run; the literal window constants are re-checked against the extracted ones. The old wrapping / truncating "
+                "formulas (findings F4, F5) are proved to violate the rule. The model is tied to /repo by running the real "
+                "VouchedTime and raffle code and the compiled model on the same enumerated + random triples (both window edges "
+                "+-1 ms, epoch +-1 ns/ms, calendar MIN/MAX, base times at 0, 2^63, 2^64-1-k and wrapped around 2^64, own / "
+                "foreign / corrupted vouchers, now() with provider answers on both sides of both edges) and diffing verdicts and "
+                "error classes; a direct oracle evaluates the property's rule in i128 on the real results."),
+    level_note=("Trusted: Lean kernel + 3 standard axioms; the correspondence harness and its generators; the time crate's "
+                "PrimitiveDateTime <-> unix_timestamp_nanos conversion (the model starts from the nanosecond count; MIN/MAX are "
+                "compared with the real crate's on every run); the clock reading inside now() is an input of the model (reported "
+                "by the harness's provider closure)."),
+    trusted_base=["time crate: PrimitiveDateTime::assume_utc().unix_timestamp_nanos() is the nanosecond count of the date-time",
+                  "raffle crate is re-modelled from its source (check.rs, vouch.rs) and compared numerically on every run"],
+    assumptions=["time crate built without the large-dates feature (years -9999..=9999; checked by the `limits` op)"],
+)
+
+SPECS["C19"] = dict(
+    title="The NFS base time only moves forward, and only on evidence from trusted devices",
+    lean_modules=["Woodpile.Props.C19"],
+    theorems=[
+        "Woodpile.Props.C19.base_monotone",
+        "Woodpile.Props.C19.changes_only_to_trusted_ctime",
+        "Woodpile.Props.C19.trust_changes_only_by_add",
+        "Woodpile.Props.C19.untrusted_reports_none_and_noop",
+        "Woodpile.Props.C19.returned_pairs_check",
+        "Woodpile.Props.C19.no_panic",
+    ],
+    # every case is a forked process working on real files, some wait out a refresh threshold (1-2 s):
+    # few cases, spread over many shards
+    families=[dict(name="nfs", quick=64, thorough=3000, search=800, shards=dict(quick=8, thorough=16))],
+    technique=("Lean 4 proof (invariant + induction over all call histories, OS answers as universally quantified inputs) "
+               "+ model/implementation correspondence on real files of two devices, one forked process per history"),
+    design_ref="DESIGN.md section 5, C19",
+    level_text=("Kernel-checked theorems about a Lean model of vouched_time::nfs_voucher (Woodpile.NfsVoucher: TRUSTED_PATHS as a "
+                "device-sorted map, the base-time cell under AtomicBaseTime's sequential specification, update_base_time, "
+                "add_trusted_path, observe_file_time, maybe_observe_file_time, scan_base_time / scan_for_base_time_impl, "
+                "get_base_time, get_base_time_unlocked, should_refresh_base_time) over ALL histories (List Call) in which every "
+                "operating-system answer - open failures, the device id and change-time stat reports (any i64, negative included), "
+                "the clock, the 100 ms rate limiter - is a universally quantified input: the base time never decreases between any "
+                "two points of a history; whenever the cell changes it holds exactly the change-time (ms) and voucher of a file "
+                "presented to that call on a device trusted before the call or registered by it; the trusted set changes only "
+                "through add_trusted_path; observing a file on an untrusted device returns None and leaves the state untouched; "
+                "every returned (base, voucher) pair passes BASE_TIME_CHECK (VouchedTime::check never answers 'bad voucher'); no "
+                "assertion / expect in the module, the cell or raffle::vouch is reachable. The model is tied to /repo by running "
+                "the real module in a freshly forked process per history on real files on / (ext4) and /dev/shm (tmpfs) plus "
+                "read-only files on a third device: older and freshly touched change-times, before/after trust is established, "
+                "registered paths removed or moved to another device, explicit now values at leeway and leeway+1 ms, the unclocked "
+                "policy both rate-limited and after really waiting past the 1000 ms / 1993 ms thresholds; the harness reports the "
+                "OS answers (device, ctime) it observed to the compiled model and the two observation streams (results and the "
+                "base time after every call) are diffed; a direct oracle with its own shadow of the trusted devices checks "
+                "monotonicity, justification of every change, untrusted no-ops and the voucher check on the real results."),
+    level_note=("PARTIAL BY NATURE: the file system is an input of the model. That stat reports the device and change-time the "
+                "kernel holds, that File::set_times bumps ctime, and that a file descriptor's device does not change between the "
+                "two metadata() calls of add_trusted_path are trusted, as is the harness's reading of the same values after the "
+                "call. The cell is the *sequential* specification of AtomicBaseTime (single-threaded histories; try_update's "
+                "WouldBlock/poison arms cannot occur); concurrency is C13/C18. The thread-local rate limiter is an input bit; "
+                "cases where the harness cannot determine it from timing are abandoned on both sides (reported as "
+                "'ambiguous'), never guessed. Negative change-times saturate the base time at 2^64-1 (observation O3): the model "
+                "follows the code and the theorems hold for them, but no real file has one."),
+    trusted_base=["OS: stat(2) device ids and change-times; tmpfs/ext4 ctime update on chmod / utimensat",
+                  "fork(2) isolates the process-global module state per history",
+                  "AtomicBaseTime behaves as its sequential specification in single-threaded use (C13 covers the concurrent cell)"],
+    assumptions=["two distinct devices are available (`/` and /dev/shm) and writable",
+                 "single-threaded histories"],
+)
